@@ -97,7 +97,7 @@ Lemma connect_loop_nil cfg b s :
   | inr e => ([], Some (RConn RsReset e))
   | inl _ => ([], None)
   end.
-Proof. cbn [connect_loop]. destruct (reset_request (cc_body cfg) s); reflexivity. Qed.
+Proof. unfold connect_loop. cbn [connect_loop_st]. destruct (reset_request (cc_body cfg) s); reflexivity. Qed.
 
 Lemma connect_loop_cons cfg b s st rest :
   connect_loop cfg b s (st :: rest) =
@@ -110,19 +110,19 @@ Lemma connect_loop_cons cfg b s st rest :
       end
   end.
 Proof.
-  cbn [connect_loop]. destruct (reset_request (cc_body cfg) s) as [s1|e]; [|reflexivity].
+  unfold connect_loop. cbn [connect_loop_st]. destruct (reset_request (cc_body cfg) s) as [s1|e]; [|reflexivity].
   unfold attempt_step, retry_step.
   destruct (st_attempt st) as [e| |e|body en].
   - destruct (bc_next b (cs_bc s1) (st_elapsed st) (st_u st)) as [c' [w|]]; [|reflexivity].
     destruct (wait_cancelled cfg w); [reflexivity|].
-    destruct (connect_loop cfg b (cs_with_bc s1 c') rest); reflexivity.
+    destruct (connect_loop_st cfg b (cs_with_bc s1 c') rest) as [[tr r] s']; reflexivity.
   - reflexivity.
   - reflexivity.
   - destruct (read_stream b _ _) as [[s3 items] [e|]]; [|reflexivity].
     destruct (is_ctx e); [reflexivity|].
     destruct (bc_next b (cs_bc s3) (st_elapsed st) (st_u st)) as [c' [w|]]; [|reflexivity].
     destruct (wait_cancelled cfg w); [reflexivity|].
-    destruct (connect_loop cfg b (cs_with_bc s3 c') rest); reflexivity.
+    destruct (connect_loop_st cfg b (cs_with_bc s3 c') rest) as [[tr r] s']; reflexivity.
 Qed.
 
 (* the controller state right before next() is consulted after an attempt, and the error of the attempt *)
